@@ -205,6 +205,25 @@ def run(ck):
                 pad.append(i)
     ck.ob('C33.table', 'C33.table/padding', len(pad) == 1, f.loc(pad[0]) if pad else f.loc(), 'attribute values are padded to a multiple of 4: (length + 3) & ~3')
 
+    # ---- every inet_ntop of the unit is given room for the longest text of its family (a short buffer makes inet_ntop fail with ENOSPC:
+    # long IPv6 addresses are then skipped, or a later attribute's address is reported instead) ----
+    import re as _re33
+    nt = [(g, i) for g in P.fns for i in g.walk() if (g.nodes[i].get('callee') or '').split('::')[-1] == 'inet_ntop']
+    ck.floor('C33.table', 'inet_ntop calls in NatTraversal.cpp', len(nt), 2)
+    for g, i in nt:
+        a = g.call_args(i)
+        fam = g.nodes[g.strip(a[0])].get('cv')
+        need = 16 if fam == '2' else 46
+        bt = [g.nodes[j].get('t') or '' for j in g.walk(a[2]) if g.nodes[j]['k'] == 'DeclRefExpr']
+        m_ = _re33.match(r'char\[(\d+)\]$', bt[0]) if bt else None
+        cap = int(m_.group(1)) if m_ else None
+        szv = [g.nodes[j].get('cv') for j in g.walk(a[3]) if g.nodes[j].get('cv') is not None]
+        sz = int(szv[0]) if szv else None
+        ok33 = cap is not None and sz is not None and need <= sz <= cap
+        ck.ob('C33.table', 'C33.table/inet-ntop-buffer/%s:%s' % (g.q.split('::')[-1], 'AF_INET' if fam == '2' else 'AF_INET6' if fam == '10' else 'family-not-constant'),
+              ok33, g.loc(i), 'inet_ntop writes into a char array of constant size with %d <= stated size <= capacity (found capacity %s, size %s): '
+              '16 bytes suffice only when the family is the constant AF_INET, every other call needs INET6_ADDRSTRLEN' % (need, cap, sz))
+
     # ---- R-ESC --------------------------------------------------------------------------------------------------------
     E = Escape(P)
     esc = E.esc.get(f.q, {})
